@@ -95,7 +95,7 @@ CLAIMED.update({
             "when the live generation equals the cached one; C03_fresh_exact states the exception exactly (history of any length under the window condition): the call returns the newest "
             "publication - freshly read or already cached - unless the cached record was accepted from an even store a positive multiple of 32767 publications before the newest one "
             "(shown real by C03_exception_witness); the generated Current_C03.v proves the side conditions for the configuration measured from the running code; C03_latest_even_is_newest, "
-            "C03_idle_segment_holds_latest_record, C03_reachable_invariant_unbounded. Freshness is stated for sequentially consistent calls (release/acquire alone gives no real-time "
+            "C03_idle_segment_holds_latest_record, C03_reachable_invariant_unbounded, C03_cache_filed_under_its_own_generation (the generation kept with the cached record is the value of the even store the record was accepted from). Freshness is stated for sequentially consistent calls (release/acquire alone gives no real-time "
             "guarantee without a happens-before edge from the publication to the call); an update racing with the call is covered by monotonicity only.",
             SHM_NOTE, "DESIGN.md section 6, C03"),
     "C04": ("Coq proof of header-validity preservation under every writer step/crash/restart, in-place take-over, adoption of an odd generation, generation never 0 + schedule "
@@ -103,7 +103,7 @@ CLAIMED.update({
             "Machine-checked: C04_valid_step, C04_crash_stores_nothing, C04_takeover_in_place (the only store of a restart over a valid segment is version := 1), "
             "C04_adopts_odd_generation, C04_generation_never_zero, computed examples (death during the first publication; death mid-update with an attached reader). "
             "Clause (a) (only complete records, in publication order, across any crash/restart pattern) is C02_RA + C03_monotone_RA, whose schedules include crash and restart tokens at "
-            "every access; clause (b): C04_restarted_publications_seen (C03_fresh_when_idle over schedules with crash/restart tokens: the attached reader's next call after a completed "
+            "every access; the update left open: C04_open_update_serves_the_held_record and C04_attaching_during_an_open_update_gets_the_empty_record (while the generation is odd a call returns after two loads with the held record, a new client gets the empty one); clause (b): C04_restarted_publications_seen (C03_fresh_when_idle over schedules with crash/restart tokens: the attached reader's next call after a completed "
             "publication of the restarted writer returns it) and C04_never_emptied_under_clients (header valid in every reachable state with an attached reader, unbounded).",
             SHM_NOTE + " Death inside ShmWriter::new while the file is (re-)created: the system calls on the segment file are measured with strace on every run (created with O_TRUNC, "
             "payload of every write) and the generated Current_C04w.v proves that every prefix of the measured image is refused by readers "
